@@ -417,7 +417,7 @@ impl BinArchive {
 
     pub fn read_bytes(&self, address: usize, amount: usize) -> Result<&[u8]> {
         validate_address(address, self.size(), false)?;
-        validate_address(address + amount, self.size(), true)?;
+        validate_address(address.saturating_add(amount), self.size(), true)?;
         Ok(&self.data[address..(address + amount)])
     }
 
